@@ -39,6 +39,8 @@ pub struct Gen {
     pub fresh_counter: u32,
     /// largest lying size hint (kept small for big elements so tables stay cheap to audit)
     pub max_hint: i64,
+    /// C18: never emit capacity-dependent composite operations (the scenario must mean the same under both group widths)
+    pub no_fill: bool,
     /// C13 churn mode: (bound on live size, removal order 0 random / 1 FIFO / 2 LIFO / 3 middle)
     pub churn: Option<(usize, u8)>,
     /// insertion order of live ids per slot (churn mode)
@@ -174,7 +176,15 @@ impl Gen {
         let target = (full_cap / 2).saturating_sub(1 + rng.below(3) as usize);
         if sv.len <= target || sv.ids.is_empty() {
             // first fill to capacity, saturate on a later call
-            self.pending.push_back(Op::new(Kd::FillNoAlloc).s(s).a(0));
+            if self.no_fill {
+                for _ in 0..(sv.cap - sv.len).min(512) {
+                    let k = self.universe + self.fresh_counter;
+                    self.fresh_counter += 1;
+                    self.pending.push_back(Op::new(if self.family == Family::Table { Kd::TInsertUnique } else { Kd::Insert }).s(s).a(k as i64).b(1));
+                }
+            } else {
+                self.pending.push_back(Op::new(Kd::FillNoAlloc).s(s).a(0));
+            }
             return;
         }
         let mut ids = sv.ids.clone();
@@ -263,7 +273,8 @@ impl Gen {
             let s = self.slot(rng);
             let sv = view.slots[s].clone();
             match rng.below(4) {
-                0 => self.pending.push_back(Op::new(Kd::FillNoAlloc).s(s).a(rng.below(self.universe as u64) as i64)),
+                0 if !self.no_fill => self.pending.push_back(Op::new(Kd::FillNoAlloc).s(s).a(rng.below(self.universe as u64) as i64)),
+                0 => self.macro_cluster(rng, s),
                 1 | 2 => self.macro_saturate(rng, s, &sv),
                 _ => self.macro_cluster(rng, s),
             }
@@ -390,7 +401,7 @@ pub fn base_cfg(rng: &mut Rng, n_slots: usize) -> Config {
     // the same plan for all slots in half the runs, independent plans otherwise
     let first = Plan::random(rng);
     let plans = (0..n_slots).map(|i| if i == 0 || rng.below(2) == 0 { first.clone() } else { Plan::random(rng) }).collect();
-    Config { plans, eq_mode: EqMode::Lawful, byz_seed: rng.next(), exact_align: rng.below(4) != 0, callback_cap: 0, functional: 1, sweep_below: 48, churn_bound: 0 }
+    Config { plans, eq_mode: EqMode::Lawful, byz_seed: rng.next(), exact_align: rng.below(4) != 0, callback_cap: 0, functional: 1, sweep_below: 48, churn_bound: 0, group_monitor: false }
 }
 
 pub const MAP_CORE: &[(Kd, u32)] = &[
